@@ -72,6 +72,16 @@ def enum_name_not_converted():
     return _pkg("wfk", [m]), {"nc": True}
 
 
+def class_attribute_list_items_by_name():
+    c = Cls("Holder001", attrs=[Attr("items002", Ann("list", [Ann("union", [Ann("int"), Ann("str")])]), None)])
+    return _pkg("wfl", [Module("wfl/mod_a.py", "wfl.mod_a", classes=[c])]), {}
+
+
+def tuple_returns_equal_up_to_order():
+    f = Func("f001", [Param("a", "pos", Ann("int"))], body="if a:\n    return 1, 's'\nreturn 's', 1", inferred=[(1, "s"), ("s", 1)])
+    return _pkg("wfm", [Module("wfm/mod_a.py", "wfm.mod_a", funcs=[f])]), {}
+
+
 def result_warn_always():
     f = Func("same001", [Param("a", "pos", Ann("int"), doc="About a.", doc_type="int")], ret=Ann("int"), doc="Doc of same001.",
              result_docs=[("", "int", "Result of same001.")])
@@ -80,4 +90,4 @@ def result_warn_always():
 
 BUILDERS = {f.__name__: f for f in [enum_without_publicity_test, property_tuple_as_union, callable_attribute_untyped,
                                     none_result_suppresses_list, typevar_typed_attribute_dropped, private_class_as_type,
-                                    nc_snake_case_class_reference, result_warn_always, stale_class_generics, rename_on_model, enum_name_not_converted]}
+                                    nc_snake_case_class_reference, result_warn_always, stale_class_generics, rename_on_model, enum_name_not_converted, class_attribute_list_items_by_name, tuple_returns_equal_up_to_order]}
